@@ -27,7 +27,7 @@ func swapControls(ctl *Ctx) []*RuleResult {
 
 func init() {
 	register(&propDef{
-		id: "C17",
+		id:          "C17",
 		explanation: "Decides the 'who may write what' sentence and one clause of 'ints.Sort orders like the standard library': PURE (the ten non-mutating sortints functions write nothing reachable from any argument, package-level or captured state), RECEIVER-ONLY (Add, Remove and the Union method write only memory rooted at their receiver, never the variadic x or b), both from E-EFF write summaries; SWAP (ints.Sort and all its helpers only permute cells of their slice, so the output is a rearrangement of the input). It does not decide that results are the right sets or that Sort orders.",
 		notDecided:  []string{"that each function returns the mathematically correct set / boolean / size (e.g. Add with a repeated, already-present argument; Range with negative step)", "that ints.Sort puts the elements in ascending order"},
 		assumptions: []string{"append into spare capacity of an argument counts as a write to that argument (it is visible to other slices sharing the array)"},
@@ -54,7 +54,7 @@ func init() {
 		},
 	})
 	register(&propDef{
-		id: "C15",
+		id:          "C15",
 		explanation: "Decides one structural clause: every value yielded by Permutations, LexicographicPermutations and MultisetPermutations is a rearrangement of the initial multiset, because every store into the iterators' state slices (PermutationIterator.p, LexicographicPermutationIterator.a) is an in-place permutation of cells (SWAP rule on typed syntax, cell distinctness for 3-cycles proved by E-PROVE), and no other module function writes those slices (E-EFF field-writer scan). Completeness, uniqueness and order of the thirteen iterators are value-level and not decided.",
 		notDecided:  []string{"that every object of each family is yielded exactly once, in the documented order, followed by stable exhaustion", "the predicate-driven iterators and TopologicalSorts (they shift, not swap)", "Partitions(1), boundary parameters"},
 		assumptions: []string{"callers respect the documented 'do not modify the returned slice'"},
